@@ -14,6 +14,7 @@ import (
 	"encoding/pem"
 	"math"
 	"net"
+	"strings"
 	"time"
 
 	"google.golang.org/grpc/credentials"
@@ -114,6 +115,7 @@ func ttls() []ttlElem {
 		{Name: "default", Secs: func(c *caCfg) int64 { return int64(c.DefaultTTL / time.Second) }},
 		{Name: "max", Secs: func(c *caCfg) int64 { return int64(c.MaxTTL / time.Second) }},
 		{Name: "max+1s", Secs: func(c *caCfg) int64 { return int64(c.MaxTTL/time.Second) + 1 }},
+		{Name: "2*max", Thorough: true, Secs: func(c *caCfg) int64 { return 2 * int64(c.MaxTTL/time.Second) }},
 		// just beyond the signing certificate's expiry (in configuration "plugged" this is below the maximum)
 		{Name: "signer-expiry+", Secs: func(c *caCfg) int64 { return int64(time.Until(c.Signer.NotAfter)/time.Second) + 5 }},
 		{Name: "maxint64", Secs: k(math.MaxInt64)},
@@ -134,7 +136,10 @@ type impReq struct {
 }
 
 type metaElem struct {
-	Name     string
+	Name string
+	// Group names the shape of the element in violation keys (defaults to Name): elements that can only
+	// fail for the same reason share one
+	Group    string
 	Thorough bool
 	Fields   map[string]any // nil: request without metadata
 	Imp      *impReq
@@ -154,7 +159,7 @@ func metas() []metaElem {
 		return metaElem{Name: name, Thorough: thorough, Fields: map[string]any{key: r.Raw}, Imp: r}
 	}
 	sameNode := spiffeID(meshTD, "ns-a", "sa-a")
-	return []metaElem{
+	out := []metaElem{
 		{Name: "none"},
 		m("imp-ns-a/sa-a(n1)", false, imp(sameNode, meshTD, "ns-a", "sa-a")),
 		m("imp-ns-b/sa-b(n2)", false, imp(spiffeID(meshTD, "ns-b", "sa-b"), meshTD, "ns-b", "sa-b")),
@@ -185,6 +190,46 @@ func metas() []metaElem {
 		{Name: "certsigner+imp-ns-b/sa-b(n2)", Thorough: true, Fields: map[string]any{"CertSigner": "x", key: spiffeID(meshTD, "ns-b", "sa-b")}, Imp: imp(spiffeID(meshTD, "ns-b", "sa-b"), meshTD, "ns-b", "sa-b")},
 		{Name: "unknown-key", Thorough: true, Fields: map[string]any{"Identity": spiffeID(meshTD, "istio-system", "istiod"), "san": "istiod.istio-system.svc"}},
 	}
+	// generated family (thorough): every separator at every position of every component of an otherwise
+	// authorised request. The label follows from the construction: a component holding '/' breaks the
+	// five-segment form (no target), anything else denotes the workload (td', ns', sa'), which is none of
+	// the pods' and none of the mesh's trust domains, hence never authorised.
+	for ci, comp := range []string{"td", "ns", "sa"} {
+		for _, sep := range separators {
+			for _, v := range variants(([]string{meshTD, "ns-a", "sa-a"})[ci], sep.S) {
+				parts := []string{meshTD, "ns-a", "sa-a"}
+				parts[ci] = v.S
+				r := imp(spiffeID(parts[0], parts[1], parts[2]))
+				if !strings.Contains(v.S, "/") {
+					r = imp(spiffeID(parts[0], parts[1], parts[2]), parts[0], parts[1], parts[2])
+				}
+				e := m("gen-imp-"+comp+"-"+sep.Name+"-"+v.Name, true, r)
+				e.Group = "imp-" + comp + "-with-separator"
+				out = append(out, e)
+			}
+		}
+	}
+	// shapes: a trust domain that is not the mesh's (with / without ',' inside)
+	for i := range out {
+		if r := out[i].Imp; r != nil && r.Target != nil && r.Target[0] != meshTD && r.Target[0] != meshTDAlias {
+			out[i].Group = "imp-trust-domain-not-mesh"
+			if strings.Contains(r.Target[0], ",") {
+				out[i].Group = "imp-trust-domain-with-comma"
+			}
+		}
+	}
+	return out
+}
+
+var separators = []struct{ Name, S string }{
+	{"comma", ","}, {"slash", "/"}, {"colon", ":"}, {"space", " "}, {"newline", "\n"}, {"nul", "\x00"}, {"semicolon", ";"},
+	{"at", "@"}, {"pct2c", "%2C"}, {"dotdot", ".."}, {"star", "*"}, {"hash", "#"}, {"question", "?"},
+}
+
+type variant struct{ Name, S string }
+
+func variants(base, sep string) []variant {
+	return []variant{{"prefix", "x" + sep + base}, {"suffix", base + sep + "x"}, {"trailing", base + sep}}
 }
 
 // ---------------------------------------------------------------------------------------------- authentication
@@ -194,6 +239,7 @@ type nodeCaller struct{ NS, SA, Pod, UID string }
 
 type authElem struct {
 	Name     string
+	Group    string // shape of the element in violation keys (defaults to Name)
 	Thorough bool
 	Class    string // cert | oidc | k8s | xfcc | none | combo
 	Peer     *peer.Peer
@@ -282,6 +328,7 @@ func (w *world) auths() []authElem {
 	x("xfcc-gateway-uri+dns+cn", false, addrGateway, `Hash=a;Subject="CN=a-cn,O=org";URI=`+idA+";DNS=a.ns-a.svc",
 		[]sanEntry{uri(idA), dns("a.ns-a.svc")}, []sanEntry{uri(idA), dns("a.ns-a.svc"), dns("a-cn")})
 	x("xfcc-gateway-subject-without-cn", false, addrGateway, `Hash=a;Subject="O=org";URI=`+idA, []sanEntry{uri(idA)})
+	x("xfcc-gateway-subject-only-without-cn", true, addrGateway, `Hash=a;Subject="O=org"`) // no identity in it at all
 	x("xfcc-gateway-malformed", false, addrGateway, "junk header")
 	x("xfcc-gateway-no-identity", true, addrGateway, "Hash=abc")
 	x("xfcc-gateway-uri-with-comma", false, addrGateway, `Hash=a;URI="`+commaURI+`"`, []sanEntry{uri(commaURI)})
@@ -349,5 +396,57 @@ func (w *world) auths() []authElem {
 	o("oidc-wrong-issuer", true)
 	o("oidc-alg-none", false)
 	o("oidc-garbage", true)
+	for _, g := range oidcGenerated() {
+		o(g.Name, true, g.Accept...)
+		out[len(out)-1].Group = g.Group
+	}
+	group := map[string]string{
+		"oidc-sub-1part": "oidc-sub-fewer-than-4-parts", "oidc-sub-3parts": "oidc-sub-fewer-than-4-parts",
+		"oidc-aud-mismatch-sub-1part": "oidc-sub-fewer-than-4-parts",
+		"oidc-sub-comma-uri":          "oidc-sub-comma", "oidc-sub-comma-ns": "oidc-sub-comma",
+		"xfcc-gateway-subject-without-cn": "xfcc-subject-without-cn", "xfcc-gateway-subject-only-without-cn": "xfcc-subject-without-cn",
+	}
+	for i := range out {
+		if g, ok := group[out[i].Name]; ok {
+			out[i].Group = g
+		}
+	}
+	return out
+}
+
+type oidcGen struct {
+	Name, Sub string
+	Group     string
+	Accept    [][]sanEntry
+}
+
+// oidcGenerated (thorough): every separator at every position of the namespace and service-account parts
+// of "sub". Without ':' the sub has the documented four parts and denotes exactly (ns', sa'): one URI,
+// verbatim. With an extra ':' the form is not the documented one: refusal, or any one of the plausible
+// single-identity readings.
+func oidcGenerated() []oidcGen {
+	var out []oidcGen
+	for ci, comp := range []string{"ns", "sa"} {
+		for _, sep := range separators {
+			for _, v := range variants(([]string{"ns-a", "sa-a"})[ci], sep.S) {
+				c := []string{"ns-a", "sa-a"}
+				c[ci] = v.S
+				g := oidcGen{Name: "gen-oidc-" + comp + "-" + sep.Name + "-" + v.Name, Sub: "system:serviceaccount:" + c[0] + ":" + c[1]}
+				g.Group = "oidc-sub-" + sep.Name
+				if !strings.Contains(v.S, ":") {
+					g.Accept = [][]sanEntry{{uri(spiffeID(meshTD, c[0], c[1]))}}
+				} else {
+					p := strings.Split(g.Sub, ":")[2:]
+					n := len(p)
+					g.Accept = [][]sanEntry{
+						{uri(spiffeID(meshTD, p[0], p[1]))},
+						{uri(spiffeID(meshTD, p[0], strings.Join(p[1:], ":")))},
+						{uri(spiffeID(meshTD, strings.Join(p[:n-1], ":"), p[n-1]))},
+					}
+				}
+				out = append(out, g)
+			}
+		}
+	}
 	return out
 }
